@@ -306,7 +306,7 @@ def correspond(ctx, step, cases_path, area, nontrivial=None, dist_keys=(), sampl
 
 
 def known_match(ctx, f):
-    text = "%s ;; %s" % (f.get("case", ""), f.get("impl", ""))
+    text = "%s ;; %s ## %s" % (f.get("case", ""), f.get("impl", ""), f.get("answer", ""))
     for k in ctx.known:
         if re.search(k["match"], text):
             return k
